@@ -248,8 +248,8 @@ impl Prop for C05 {
     }
     fn budget(&self, tier: Tier) -> Budget {
         match tier {
-            Tier::Quick => Budget { cases: 100_000, max_tape: 320 },
-            Tier::Thorough => Budget { cases: 2_000_000, max_tape: 640 },
+            Tier::Quick => Budget { cases: 400_000, max_tape: 320 },
+            Tier::Thorough => Budget { cases: 6_000_000, max_tape: 640 },
         }
     }
     fn run_tape(&self, tape: &[u8], tier: Tier, rec: &mut Recorder) -> Result<(), Failure> {
